@@ -54,12 +54,16 @@ func init() {
 
 func (p *c18) ID() string { return "C18" }
 func (p *c18) Rule() string {
-	return "every stack of L layers (quick: L<=2 plus every 3-layer stack with a nil layer or a repeated state; thorough: all L<=3) where each layer is nil or one of 48 MapFS states over {a, d, d/x, d/y, e, e/z} (a,d,e absent/file; d,e also directory incl. explicitly empty); each stack is queried with ReadFile/Stat/ReadDir on every name of the universe, '.', a missing name, and 7 glob patterns; non-trivial = stack with at least one non-nil layer; distinct by the tuple of layer states"
+	return "every stack of L layers (quick: L<=2 plus every 3-layer stack with a nil layer or a repeated state; thorough: all L<=4) where each layer is nil or one of 48 MapFS states over {a, d, d/x, d/y, e, e/z} (a,d,e absent/file; d,e also directory incl. explicitly empty); each stack is queried with ReadFile/Stat/ReadDir on every name of the universe, '.', a missing name, and 7 glob patterns; non-trivial = stack with at least one non-nil layer; distinct by the tuple of layer states"
 }
 
 func (p *c18) stacks(ctx core.Ctx) int {
 	n := len(p.states)
-	return n + n*n + n*n*n
+	t := n + n*n + n*n*n
+	if ctx.Thorough() {
+		t += n * n * n * n // every 4-layer stack
+	}
+	return t
 }
 
 func (p *c18) Plan(ctx core.Ctx) int { return p.stacks(ctx) }
@@ -73,9 +77,12 @@ func (p *c18) Gen(ctx core.Ctx, i int) any {
 	case i < n+n*n:
 		j := i - n
 		idx = []int{j / n, j % n}
-	default:
+	case i < n+n*n+n*n*n:
 		j := i - n - n*n
 		idx = []int{j / (n * n), (j / n) % n, j % n}
+	default:
+		j := i - n - n*n - n*n*n
+		idx = []int{j / (n * n * n), (j / (n * n)) % n, (j / n) % n, j % n}
 	}
 	c := c18Case{}
 	for _, k := range idx {
